@@ -99,4 +99,8 @@ theorem isSub_iff {x c : Nat} : isSub x c = true ↔ x &&& c = x := by simp [isS
 theorem or_lt_two_pow {a b n : Nat} (ha : a < 2 ^ n) (hb : b < 2 ^ n) : a ||| b < 2 ^ n :=
   Nat.or_lt_two_pow ha hb
 
+/-- the grand coalition is a coalition of the game -/
+theorem grand_lt (n : Nat) : grand n < 2 ^ n := by
+  unfold grand; have := Nat.two_pow_pos n; omega
+
 end ICG
